@@ -163,7 +163,25 @@ Faults ==
           \cup { FaultScript("fault-info-" \o ToString(bb[1]) \o "-" \o ToString(i) \o "-" \o kind, pre, 32, "i", i, kind) : i \in 0..1, kind \in {"cc", "lost", "short"} }
           \cup { FaultScript("fault-resv-" \o ToString(bb[1]) \o "-" \o kind, pre, 34, "r", 0, kind) : kind \in {"cc", "lost", "short"} }
           : bb \in (IF Full THEN {<<3, 1>>, <<5, 2>>, <<2, 3>>} ELSE {<<3, 1>>}) }
-Scripts == CASE Family = "plain" -> Plainrepos [] Family = "events" -> Events [] Family = "faults" -> Faults
+\* a repository holding a Full Sensor Record that cannot be decoded (shorter than the fixed part; an ID string whose
+\* type/length byte promises more bytes than the record has): the retrieval must end with an error, never with a map that
+\* contains a zero or half-decoded record (C07: rejected with an error rather than decoded)
+BadFull(id, k, how) ==
+  LET r == [FsrBase(k) EXCEPT !.id = IdStr(3, 6)]
+      good == FsrEnc(r)
+      body == CASE how = "short-30" -> Take(good, 30) [] how = "short-42" -> Take(good, 42)
+                [] how = "id-overrun" -> Take(good, 42) \o <<good[43] + 9>> \o SubSeq(good, 44, Len(good))
+                [] OTHER -> Take(good, 43)          \* the ID string bytes missing altogether
+  IN [id |-> id, type |-> 1, body |-> body, r |-> r]
+Malformed ==
+  { LET pre == Repo(70 + pos, 3, FALSE)
+        rp == [i \in 1..Len(pre) |-> IF i = pos THEN BadFull(pre[i].id, 40 + pos, how) ELSE pre[i]]
+        b == Script("malformed-" \o how \o "-" \o ToString(pos), rp, <<>>, NoEvent) IN
+    [b EXCEPT !.steps = << b.steps[1], [b.steps[2] EXCEPT !.ctx = [ms |-> 1200], !.exp = [prop |-> "C07", outcome |-> "error", value |-> <<>>, maxreqs |-> 400]] >>,
+              !.info = [b.info EXCEPT !.event = "malformed-" \o how]]
+    : how \in {"short-30", "short-42", "id-overrun", "id-missing"}, pos \in 1..3 }
+Scripts == CASE Family = "plain" -> Plainrepos [] Family = "events" -> Events [] Family = "faults" -> Faults [] Family = "malformed" -> Malformed
+             [] Family = "events17" -> { [sc EXCEPT !.steps = << sc.steps[1], [sc.steps[2] EXCEPT !.exp.prop = "C17"] >>] : sc \in Events }
 Header == [header |-> TRUE, family |-> "sdr", defs |-> SessionDefs(S) @@ [ReqPlainT |-> ReqPlain(S)], stable |-> <<"SIK", "K1", "K2">>,
            session |-> SessionRecipes(S), prefixes |-> [hs |-> HandshakeSteps(S)]]
 ASSUME PrintT(<<"HEADER", ToJson(Header)>>)
